@@ -948,3 +948,49 @@ func (r Rules) Broken() []int {
 	}
 	return out
 }
+
+// FlakyLoader answers its FailAt-th lookup (counted from 1, over all CIDs) with a failure and every other lookup as
+// Inner does: a store that times out once. Style: 0 a plain error, 1 ErrDelegationNotFound, 2 an error wrapping
+// ErrDelegationNotFound, 3 (nil, nil).
+type FlakyLoader struct {
+	Inner  delegation.Loader
+	FailAt int
+	Style  int
+	Calls  int
+}
+
+func (f *FlakyLoader) GetDelegation(c cid.Cid) (*delegation.Token, error) {
+	f.Calls++
+	if f.Calls == f.FailAt {
+		switch f.Style % 4 {
+		case 1:
+			return nil, delegation.ErrDelegationNotFound
+		case 2:
+			return nil, fmt.Errorf("verif: store: %w", delegation.ErrDelegationNotFound)
+		case 3:
+			return nil, nil
+		}
+		return nil, errors.New("verif: store timed out")
+	}
+	return f.Inner.GetDelegation(c)
+}
+
+// FlakyAllowed runs the check against a store that fails ONE lookup - each lookup in turn, counted over the whole
+// check, in each of the ways stores fail - and answers all others as b.Loader does. It reports the first
+// configuration under which the invocation is allowed. For chains that must be denied whatever the store does.
+func FlakyAllowed(b *Built, nLinks int, hook *Hook) (string, bool) {
+	for k := 1; k <= 3*nLinks+2; k++ {
+		for style := 0; style < 4; style++ {
+			fb := *b
+			fl := &FlakyLoader{Inner: b.Loader, FailAt: k, Style: style}
+			fb.Loader = fl
+			if df := Decide(&fb, hook); df.Allowed {
+				return fmt.Sprintf("the loader failed its lookup number %d (style %d) and answered the other %d", k, style, fl.Calls-1), true
+			}
+			if fl.Calls < k {
+				return "", false // the check does not make that many lookups
+			}
+		}
+	}
+	return "", false
+}
